@@ -46,6 +46,7 @@ struct layout_transpose {
     private:
         using nested_mapping_t = typename Layout::template mapping<detail::transpose_extents_t<Extents>>;
         nested_mapping_t _nestedMapping;
+        Extents _extents;
 
     public:
         using extents_type = Extents;
@@ -54,13 +55,11 @@ struct layout_transpose {
 
         constexpr explicit mapping(nested_mapping_t const& map)
             : _nestedMapping{map}
+            , _extents{detail::transpose_extents(map.extents())}
         {
         }
 
-        [[nodiscard]] constexpr auto extents() const noexcept(noexcept(_nestedMapping.extents())) -> extents_type
-        {
-            return detail::transpose_extents(_nestedMapping.extents());
-        }
+        [[nodiscard]] constexpr auto extents() const noexcept -> extents_type const& { return _extents; }
 
         [[nodiscard]] constexpr auto required_span_size() const noexcept(noexcept(_nestedMapping.required_span_size()))
         {
